@@ -50,7 +50,14 @@ func replay(p *provider, idx int, walk []json.RawMessage, g *grid, rng *rand.Ran
 	c1 := uint32(0x10000000 + idx)
 	c2 := c1 ^ hash.OfString("a") ^ hash.OfString("b") // C1^a = C2^b and C1^b = C2^a: colliding key prefixes
 	contract := map[string]uint32{"C1": c1, "C2": c2}
-	base := time.Now().Unix() - 5000
+	// how old the behaviour's messages are, and with that the TTLs that make a message "live" or "expired": minutes,
+	// weeks beyond the default retention period of retained messages (30 days), more than a year
+	age := []int64{5000, 45 * 86400, 400 * 86400}[idx%3]
+	base := time.Now().Unix() - age
+	liveTTL, deadTTL := uint32(age+1000000), uint32(10)
+	if idx%2 == 1 && age > 100000 {
+		deadTTL = uint32(age - 50000) // expired only recently
+	}
 	ids := map[string]int{}
 	var stored []message.ID
 	tr := &core.Trace{Label: label}
@@ -94,9 +101,9 @@ func replay(p *provider, idx int, walk []json.RawMessage, g *grid, rng *rand.Ran
 		if a.Big {
 			size = 40 * 1024
 		}
-		m := &message.Message{ID: id, Channel: []byte(strings.Join(a.W, "/") + "/"), Payload: []byte(strings.Repeat("p", size)), TTL: 1000000}
+		m := &message.Message{ID: id, Channel: []byte(strings.Join(a.W, "/") + "/"), Payload: []byte(strings.Repeat("p", size)), TTL: liveTTL}
 		if !a.Live {
-			m.TTL = 10 // expired long ago: time + ttl < now
+			m.TTL = deadTTL // time + ttl < now
 		}
 		if err := p.st.Store(m); err != nil {
 			core.Fatalf("%s Store: %v", p.name, err)
